@@ -139,6 +139,12 @@ Theorem C16_pinv_normal_equations : forall (R : Type) (RR : Ring R) (CR : CRing 
 Proof. intros R RR CR FF. exact (pinv_normal_equations_penrose (R:=R)). Qed.
 Print Assumptions C16_pinv_normal_equations.
 
+(* the repaired CG rule (no jitter added to the inverse: eps = 0) is exactly that *)
+Theorem C16_pinv_cg_repaired : forall (R : Type) (RR : Ring R) (CR : CRing R) (FF : Field R) m n (A Minv : fm (R:=R)),
+  inv2 n (mmul m (cj A) A) Minv -> Penrose m n A (pinv_cg m n A Minv r0).
+Proof. intros R RR CR FF. exact (pinv_cg_repaired_penrose (R:=R)). Qed.
+Print Assumptions C16_pinv_cg_repaired.
+
 (* ---- refutation witnesses ---- *)
 Theorem C16_svd_diag_negative_refuted :
   let o := svd_diag 2 (vecl [qz (-1); qz 2]) in
@@ -159,6 +165,12 @@ Theorem C16_svd_dense_k_repaired :
   exists o, svd_dense_k qi_leb 2 eye (vecl [qz 1; qz 2]) eye 1 LM = Some o /\ sk o = 1%nat /\ qi_eqb (sS o 0%nat) (qz 2) = true.
 Proof. exact svd_dense_k_repaired. Qed.
 Print Assumptions C16_svd_dense_k_repaired.
+Theorem C16_pinv_cg_jitter_refuted :
+  let A : fm (R:=qi) := fun _ _ => qz 1000 in let Minv : fm (R:=qi) := fun _ _ => qic 1 1000000 0 1 in
+  qi_eqb (mmul 1 (mmul 1 A (pinv_cg 1 1 A Minv (qic 1 1000 0 1))) A 0%nat 0%nat) (A 0%nat 0%nat) = false /\
+  qi_eqb (mmul 1 (mmul 1 A (pinv_cg 1 1 A Minv (qz 0))) A 0%nat 0%nat) (A 0%nat 0%nat) = true.
+Proof. exact pinv_cg_jitter_refuted. Qed.
+Print Assumptions C16_pinv_cg_jitter_refuted.
 Example C16_example_perm : feqb 3 3 (mmul 3 (fun i j => delta (nth i [2;0;1]%nat 0%nat) j) (pinv_perm (inv_perm 3 [2;0;1]%nat))) eye = true.
 Proof. exact pinv_perm_example. Qed.
 Print Assumptions C16_example_perm.
